@@ -65,3 +65,12 @@ Example C16_nonvacuous :
   check_loop toy_cfg d2 d2 false = true /\ check_loop toy_cfg d2 (rev d2) false = true /\
   check_loop toy_cfg d2 (remove_user d2 (str "root")) false = false.
 Proof. vm_compute. auto. Qed.
+
+(* ---- the model's state space is the code's declared state ----
+   (theories/StateInst.v: package-level variables and struct fields listed by tools/facts on every
+   run; the models keep no state between operations other than these components) *)
+From Whawty Require StateInst.
+Theorem C16_store_state_inventory : StateInst.store_state_inventory.
+Proof. exact StateInst.store_state_inventory_holds. Qed.
+Theorem C16_agent_state_inventory : StateInst.agent_state_inventory.
+Proof. exact StateInst.agent_state_inventory_holds. Qed.
